@@ -188,3 +188,37 @@ fn str_as_bytes<'a>(s: &'a str) -> (r: &'a [u8]) ensures r@ == s.spec_bytes(), {
 /// `char::is_ascii`
 pub assume_specification[char::is_ascii](c: &char) -> (r: bool)
     ensures r == ((*c as u32) < 128);
+
+// ---- saphyr-parser's BufferedInput as the scanner sees it over ChunkedChars (for the default methods of `trait Input`) ----
+/// `rest()` is what the character iterator will still deliver; once it is exhausted `lookahead` pads with `'\0'` for ever
+/// (saphyr-parser src/input/buffered.rs: `self.input.next().unwrap_or('\0')`).
+#[verifier::external_body]
+pub struct PaddedChars { _p: () }
+impl PaddedChars {
+    pub uninterp spec fn rest(&self) -> Seq<char>;
+    /// `Input::look_ch`: lookahead(1) + peek
+    #[verifier::external_body]
+    pub fn look_ch(&mut self) -> (r: char)
+        ensures final(self).rest() == old(self).rest(), r == (if old(self).rest().len() > 0 { old(self).rest()[0] } else { '\0' }),
+    { unimplemented!() }
+    /// `Input::peek` (after a lookahead)
+    #[verifier::external_body]
+    pub fn peek(&self) -> (r: char)
+        ensures r == (if self.rest().len() > 0 { self.rest()[0] } else { '\0' }),
+    { unimplemented!() }
+    /// `Input::skip`: drops the buffered character (a padding `'\0'` when the iterator is exhausted)
+    #[verifier::external_body]
+    pub fn skip(&mut self)
+        ensures final(self).rest() == (if old(self).rest().len() > 0 { old(self).rest().skip(1) } else { old(self).rest() }),
+    { unimplemented!() }
+}
+/// saphyr-parser src/char_traits.rs `is_yaml_non_space`: not a line break, not the BOM, not blank (the end-of-input padding `'\0'` is NOT excluded)
+pub open spec fn sp_yaml_non_space(c: char) -> bool { c != '\n' && c != '\r' && c != '\u{FEFF}' && c != ' ' && c != '\t' }
+#[verifier::external_body]
+fn is_yaml_non_space(c: char) -> (r: bool) ensures r == sp_yaml_non_space(c), { unimplemented!() }
+/// `char::len_utf8`
+#[verifier::external_body]
+fn char_len_utf8(c: char) -> (r: usize) ensures 1 <= r <= 4, { c.len_utf8() }
+/// `String::push`
+#[verifier::external_body]
+fn string_push_char(out: &mut String, c: char) ensures final(out)@ == old(out)@.push(c), { out.push(c) }
